@@ -309,6 +309,10 @@ def monitor(c, out):
             if reads.get(k) != want:
                 return ('C15:not-initialised', 'op %d %s: object reads %s, an ordinary ctypes object holds %s'
                         % (j, json.dumps(op), reads.get(k), want))
+            if rec.get('readback'):
+                return ('C15:initial-value-read-back-differs',
+                        'op %d %s: an ordinary ctypes object of the type the code stands for holds %s, the shared object reads %s'
+                        % (j, json.dumps(op), rec['readback'][0], rec['readback'][1]))
             if size != len(want) or size > blk[2] - blk[1] or blk[1] % 8:
                 return ('C15:misplaced', 'op %d: size %d in block %s' % (j, size, blk))
             for k2, o2 in live.items():
